@@ -13,6 +13,8 @@ for f in sorted(glob.glob('selftest/mutants/canary_*.patch')):
     fid = re.match(r'canary_(F\d+)_', os.path.basename(f)).group(1)
     for p in next((k['properties'] for k in kf if k['id']==fid), []):
         cases.append((os.path.basename(f)[:-6]+'@'+p, os.path.abspath(f), p))
+for f in sorted(glob.glob('selftest/mutants/engine_*.patch')):
+    cases.append((os.path.basename(f)[:-6], os.path.abspath(f), re.match(r'engine_(C\d+)_', os.path.basename(f)).group(1)))
 for d in sorted(glob.glob('seeded/*/')):
     m = json.load(open(d+'meta.json'))
     cases.append((m['seed'], os.path.abspath(d+'patch.diff'), m['property']))
